@@ -459,7 +459,10 @@ def check_coarsening_siblings(prog, ctx):
         ctx.check(len(shapes) == 1, "C07.D7", R.key_of(cg, "siblings:%s" % name), cg.loc(sts[-1]),
                   "the %d version branches compute `%s` from the same quantities (they differ in constants only)" % (len(sts), name),
                   "the coarsening versions compute `%s` from different quantities: %s" % (name, [src(st.value)[:70] for st in sts]))
-    ctx.floor("C07.D7", sum(len(v) for v in groups.values()), 2, "sibling coarsening conditions")
+    n_sib = sum(len(v) for v in groups.values())
+    if n_sib < 2:
+        # the version branches were merged into one parametrised loop: there are no siblings left to compare, nothing is decided here
+        ctx.note("C07.D7", R.key_of(cg, "sibling-conditions"), cg.loc(), "the coarsening versions are no longer written as sibling branches: agreement not decided")
     # a coarsening round that is admitted by comparing the budget with the NUMBER of dimensions at the maximum level lowers every one of
     # them: the lowering loop over all dimensions has no early exit (the version-0 branch, which lowers one dimension per round and
     # compares nothing with a count, does break)
